@@ -433,6 +433,86 @@ theorem iter_nodup (s : Store) (k : Nat) (hwf : WF s) : ((iterMetadata s k).map 
 /-- `multi_get` is `get` per requested id, in request order. -/
 theorem multi_get_is_get (s : Store) (k : Nat) (ids : List Nat) : multiGet s k ids = ids.filterMap (get s k) := rfl
 
+/-! ### keyspaces never affect one another - for whole histories -/
+
+def Op.ks : Op → Nat
+  | .put k _ _ _ => k
+  | .multiPut k _ => k
+  | .mark k _ _ => k
+  | .markMany k _ => k
+  | .remove k _ => k
+
+theorem foldl_upd_other {β : Type} (f : β → Nat × Cell) (k k' : Nat) (hk : k' ≠ k) (l : List β) (a : Abs) (id : Nat) :
+    (l.foldl (fun a d => upd a k (f d).1 (f d).2) a) k' id = a k' id := by
+  induction l generalizing a with
+  | nil => rfl
+  | cons x xs ih => simp only [List.foldl_cons]; rw [ih]; simp [upd, hk]
+
+theorem foldl_upd_congr {β : Type} (f : β → Nat × Cell) (k : Nat) (l : List β) (a a' : Abs)
+    (h : ∀ id, a k id = a' k id) (id : Nat) :
+    (l.foldl (fun a d => upd a k (f d).1 (f d).2) a) k id = (l.foldl (fun a d => upd a k (f d).1 (f d).2) a') k id := by
+  induction l generalizing a a' with
+  | nil => exact h id
+  | cons x xs ih =>
+    simp only [List.foldl_cons]
+    apply ih
+    intro id'
+    simp only [upd]
+    by_cases e : id' = (f x).1 <;> simp [e, h]
+
+/-- a call that names another keyspace changes no cell of this one -/
+theorem absStep_other (a : Abs) (op : Op) (k : Nat) (h : op.ks ≠ k) (id : Nat) : absStep a op k id = a k id := by
+  have hk : k ≠ op.ks := fun e => h e.symm
+  cases op with
+  | put k0 i ts b => simp only [Op.ks] at hk; simp [absStep, upd, hk]
+  | mark k0 i ts => simp only [Op.ks] at hk; simp [absStep, upd, hk]
+  | multiPut k0 docs =>
+    simp only [Op.ks] at hk
+    exact foldl_upd_other (fun d : Nat × Nat × List Nat => (d.1, Cell.live d.2.1 d.2.2)) k0 k hk docs a id
+  | markMany k0 docs =>
+    simp only [Op.ks] at hk
+    exact foldl_upd_other (fun d : Nat × Nat => (d.1, Cell.dead d.2)) k0 k hk docs a id
+  | remove k0 ids =>
+    simp only [Op.ks] at hk
+    exact foldl_upd_other (fun i : Nat => (i, Cell.absent)) k0 k hk ids a id
+
+/-- what a call does to its own keyspace depends on that keyspace only -/
+theorem absStep_congr (a a' : Abs) (op : Op) (k : Nat) (h : ∀ id, a k id = a' k id) (hk : op.ks = k) (id : Nat) :
+    absStep a op k id = absStep a' op k id := by
+  cases op with
+  | put k0 i ts b => simp only [Op.ks] at hk; subst hk; simp only [absStep, upd]; by_cases e : id = i <;> simp [e, h]
+  | mark k0 i ts => simp only [Op.ks] at hk; subst hk; simp only [absStep, upd]; by_cases e : id = i <;> simp [e, h]
+  | multiPut k0 docs =>
+    simp only [Op.ks] at hk; subst hk
+    exact foldl_upd_congr (fun d : Nat × Nat × List Nat => (d.1, Cell.live d.2.1 d.2.2)) k0 docs a a' h id
+  | markMany k0 docs =>
+    simp only [Op.ks] at hk; subst hk
+    exact foldl_upd_congr (fun d : Nat × Nat => (d.1, Cell.dead d.2)) k0 docs a a' h id
+  | remove k0 ids =>
+    simp only [Op.ks] at hk; subst hk
+    exact foldl_upd_congr (fun i : Nat => (i, Cell.absent)) k0 ids a a' h id
+
+theorem isolation_from (ops : List Op) (k : Nat) (a a' : Abs) (h : ∀ id, a k id = a' k id) (id : Nat) :
+    (ops.foldl absStep a) k id = ((ops.filter (fun o => o.ks == k)).foldl absStep a') k id := by
+  induction ops generalizing a a' with
+  | nil => exact h id
+  | cons op rest ih =>
+    simp only [List.foldl_cons, List.filter_cons]
+    by_cases hk : op.ks = k
+    · simp only [hk, beq_self_eq_true, if_true, List.foldl_cons]
+      exact ih _ _ (fun id' => absStep_congr a a' op k h hk id')
+    · have : (op.ks == k) = false := by simp [hk]
+      simp only [this, Bool.false_eq_true, if_false]
+      exact ih _ _ (fun id' => by rw [absStep_other a op k hk id']; exact h id')
+
+/-- **history_isolation**: after ANY history, what a keyspace holds is what the calls that NAMED it
+produce on their own - the calls on every other keyspace, in whatever number and order they were
+interleaved, might as well not have happened.  With `refines` this is a statement about the reference
+model's observations (`get`, `iter_metadata`) for every legal history. -/
+theorem history_isolation (ops : List Op) (k id : Nat) :
+    absRun ops k id = absRun (ops.filter (fun o => o.ks == k)) k id :=
+  isolation_from ops k _ _ (fun _ => rfl) id
+
 /-! ### non-vacuity: a legal history with a bulk put naming an id twice, a tombstone, a purge -/
 
 def exOps : List Op :=
